@@ -1995,6 +1995,17 @@ func shrinkSched(p Plan, pred failPred) Plan {
 		budget--
 		return pred(&c)
 	}
+	// 0. a smaller flood (each candidate re-parses it): halve while the violation persists
+	for p.Flood != nil && p.Flood.N > 1 {
+		c := p
+		f := *p.Flood
+		f.N /= 2
+		c.Flood = &f
+		if !try(c) {
+			break
+		}
+		p = c
+	}
 	// 1. drop whole tasks (keep schedule entries consistent by renumbering)
 	for t := len(p.Tasks) - 1; t >= 0 && len(p.Tasks) > 1; t-- {
 		c := p
